@@ -19,12 +19,10 @@ func inFileNamedA(m dsl.Matcher) {
 		Report(`B: $x incremented by $y in a watched file`)
 }
 
-// size- and constness-sensitive
+// constness-sensitive (no Type.Size filter: ruleguard itself crashes in
+// go/types' Sizeof on structs with type-parameter fields)
 func bigConst(m dsl.Matcher) {
 	m.Match(`$x + $y`).
 		Where(m["x"].Const && m["y"].Const).
 		Report(`B: constant sum $x + $y`)
-	m.Match(`$v := $_`).
-		Where(m["v"].Type.Size >= 64).
-		Report(`B: $v is a big value`)
 }
